@@ -10,7 +10,10 @@ use crate::props::build;
 /// Decodes fuzzer bytes into a DAG operation sequence.
 pub fn dag_case_from_bytes(data: &[u8]) -> DagCase {
   let mut it = data.iter().copied();
-  let init = 2 + it.next().unwrap_or(0) % 9;
+  let b0 = it.next().unwrap_or(0);
+  let init = 2 + b0 % 9;
+  // High bits of the first byte: sweep schedule (0 = sweep after every op).
+  let sweep_every = match b0 / 64 { 0 | 1 => 0, 2 => 255, _ => 3 };
   let mut ops = vec![];
   while let Some(k) = it.next() {
     let mut w = || -> u16 { let a = it.next().unwrap_or(0); let b = it.next().unwrap_or(0); u16::from_le_bytes([a, b]) };
@@ -19,18 +22,19 @@ pub fn dag_case_from_bytes(data: &[u8]) -> DagCase {
       1..=8 => DagOp::AddEdge { s: w(), d: w(), data: k / 16 },
       9 | 10 => DagOp::ReAdd { k: w(), data: 4 + k / 64 },
       11 => DagOp::RemEdge { s: w(), d: w() },
-      12 | 13 => DagOp::RemExisting { k: w() },
+      12 => DagOp::RemExisting { k: w() },
+      13 => { if k / 16 % 2 == 0 { DagOp::Q { kind: k / 32, a: w(), b: w() } } else { DagOp::QAgain { k: k / 32 } } }
       14 => DagOp::RemOut { s: w() },
       _ => DagOp::RemNode { s: w() },
     };
     ops.push(op);
     if ops.len() >= 256 { break; }
   }
-  DagCase { init, ops }
+  DagCase { init, ops, sweep_every }
 }
 
 pub fn dag_case_to_bytes(c: &DagCase) -> Vec<u8> {
-  let mut v = vec![c.init.saturating_sub(2) % 9];
+  let mut v = vec![c.init.saturating_sub(2) % 9 + match c.sweep_every { 0 => 0, 255 => 128, _ => 192 }];
   for op in &c.ops {
     match op {
       DagOp::AddNode => v.push(0),
@@ -40,6 +44,8 @@ pub fn dag_case_to_bytes(c: &DagCase) -> Vec<u8> {
       DagOp::RemExisting { k } => { v.push(12); v.extend(k.to_le_bytes()); }
       DagOp::RemOut { s } => { v.push(14); v.extend(s.to_le_bytes()); }
       DagOp::RemNode { s } => { v.push(15); v.extend(s.to_le_bytes()); }
+      DagOp::Q { kind, a, b } => { v.push(13 + (kind % 8) * 32); v.extend(a.to_le_bytes()); v.extend(b.to_le_bytes()); }
+      DagOp::QAgain { k } => { v.push(13 + 16 + (k % 8) * 32); }
     }
   }
   v
